@@ -16,6 +16,7 @@ import (
 	"math"
 	"math/rand"
 	"net"
+	"os"
 	"sort"
 	"strings"
 	"time"
@@ -29,6 +30,8 @@ import (
 )
 
 const c11Watchdog = 60 * time.Second // generous; firing => inconclusive, never a verdict
+// in the degraded proxy configurations a missing reply is not judged at all, so waiting long for one buys nothing
+const c11DegradedWatchdog = 10 * time.Second
 
 // ---------------------------------------------------------------------------
 // wire helpers
@@ -70,6 +73,7 @@ type c11Client struct {
 	conn     net.Conn
 	sentinel int32
 	dials    int
+	watchdog time.Duration
 }
 
 func (c *c11Client) close() {
@@ -124,7 +128,11 @@ func (c *c11Client) do(wire []byte, pipelineSentinel bool) c11Exchange {
 			c.close()
 		}
 	}()
-	_ = conn.SetDeadline(time.Now().Add(c11Watchdog))
+	wd := c.watchdog
+	if wd <= 0 {
+		wd = c11Watchdog
+	}
+	_ = conn.SetDeadline(time.Now().Add(wd))
 	if _, err := conn.Write(wire); err != nil {
 		ex.closed, ex.connBroken, ex.err = true, true, "write: "+err.Error()
 		return ex
@@ -268,6 +276,10 @@ func c11Judge(r *verifkit.Run, cs c11Case, ex c11Exchange) kmsg.Response {
 		adv = "unadvertised"
 	}
 	if ex.watchdog {
+		if cs.NoReplyOK {
+			r.Count("no_reply_within_watchdog_in_degraded_config", 1)
+			return nil
+		}
 		r.Inconclusive(fmt.Sprintf("%s %s v%d: watchdog (%s)", cs.Target, api, cs.Version, ex.err))
 		return nil
 	}
@@ -555,8 +567,25 @@ func c11Corr(rng *rand.Rand) int32 {
 
 // c11RunMatrix drives every advertised (key, version) and every other version in [0, codec max + 2] of every key
 // the codec knows against the server at addr and judges each reply.
-func c11RunMatrix(r *verifkit.Run, target, addr string, legSalt int, requireReply bool, scale float64, partitionZeroOnly bool, hooks *c11Hooks) {
-	cl := &c11Client{addr: addr}
+// c11Matrix configures one pass over one server.
+type c11Matrix struct {
+	target            string
+	addr              string
+	salt              int     // offsets the PRNG case numbers so that passes do not share cases
+	requireReply      bool    // false: degraded configuration, a missing reply is counted, not judged
+	scale             float64 // multiplies the per-pair body counts
+	partitionZeroOnly bool
+	onlyListedKeys    bool // skip the keys the server does not list at all
+	onlyKeys          map[int16]bool // non-nil: drive only these keys
+	hooks             *c11Hooks
+}
+
+func c11RunMatrix(r *verifkit.Run, m c11Matrix) {
+	target, addr, legSalt, requireReply, scale, partitionZeroOnly, hooks := m.target, m.addr, m.salt, m.requireReply, m.scale, m.partitionZeroOnly, m.hooks
+	cl := &c11Client{addr: addr, watchdog: c11Watchdog}
+	if !requireReply {
+		cl.watchdog = c11DegradedWatchdog
+	}
 	defer cl.close()
 	table, keys := c11Advertised(r, target, cl)
 	if table == nil {
@@ -570,8 +599,13 @@ func c11RunMatrix(r *verifkit.Run, target, addr string, legSalt int, requireRepl
 	}
 	r.Note(target+"_advertised", strings.Join(advText, " "))
 	caseNo := legSalt
+	debug := os.Getenv("VERIF_DEBUG") != ""
+	t0 := time.Now()
 	one := func(key, ver int16, advertised bool) {
 		caseNo++
+		if debug {
+			fmt.Fprintf(os.Stderr, "c11 %s case %d key=%d v=%d adv=%v t=%s\n", target, caseNo, key, ver, advertised, time.Since(t0).Round(time.Millisecond))
+		}
 		rng := r.Rand(caseNo)
 		req := world.gen(rng, key, ver)
 		cid := verifkreq.ClientID(rng)
@@ -631,6 +665,9 @@ func c11RunMatrix(r *verifkit.Run, target, addr string, legSalt int, requireRepl
 		if rg.min < 0 || rg.max < rg.min {
 			continue // listed as unsupported (-1..-1)
 		}
+		if m.onlyKeys != nil && !m.onlyKeys[k] {
+			continue
+		}
 		for v := rg.min; v <= rg.max; v++ {
 			for i := 0; i < nAdv; i++ {
 				one(k, v, true)
@@ -644,6 +681,12 @@ func c11RunMatrix(r *verifkit.Run, target, addr string, legSalt int, requireRepl
 			continue
 		}
 		rg, listed := table[key]
+		if !listed && m.onlyListedKeys {
+			continue
+		}
+		if m.onlyKeys != nil && !m.onlyKeys[key] {
+			continue
+		}
 		n := nUnknown
 		if listed {
 			n = nOther
